@@ -451,6 +451,24 @@ class Time(Parameterized):
 #-----------------------------------------------------------------------------
 
 
+class _NeverProduced:
+    """Value of a generator's `_Dynamic_time` before it produced anything: differs from every time."""
+
+    def __eq__(self, other):
+        return False
+
+    def __ne__(self, other):
+        return True
+
+    def __hash__(self):
+        return id(self)
+
+    def __repr__(self):
+        return '<never produced>'
+
+_never_produced = _NeverProduced()
+
+
 class Dynamic(Parameter):
     """
     Parameter whose value can be generated dynamically by a callable
@@ -507,9 +525,9 @@ class Dynamic(Parameter):
             gen._Dynamic_time_fn = obj._Dynamic_time_fn
 
         gen._Dynamic_last = None
-        # Would have usede None for this, but can't compare a fixedpoint
-        # number with None (e.g. 1>None but FixedPoint(1)>None can't be done)
-        gen._Dynamic_time = -1
+        # Not a time value (-1 used to be stored here, but -1 is a legitimate
+        # time: a generator first read at time -1 returned the None above)
+        gen._Dynamic_time = _never_produced
 
         gen._saved_Dynamic_last = []
         gen._saved_Dynamic_time = []
